@@ -4,7 +4,7 @@
 # Exit 0 = caught (some run exited 1 with a VIOLATION line), 3 = missed, 2 = inconclusive/trouble.
 p="$1"; id="$2"; tier="${3:-quick}"; shift 3 2>/dev/null || shift $#
 seeds="${*:-1}"
-[ -d "$p" ] && p="$p/patch.diff"
+[ -d "$p" ] && p="$p/patch.diff"; p=$(readlink -f "$p")
 [ -f "$p" ] || { echo "no patch $p"; exit 2; }
 if [ -n "$(git -C /repo status --porcelain)" ]; then echo "/repo is dirty; refusing"; exit 2; fi
 exec 9>/tmp/verif-mutant.lock; flock 9
